@@ -572,6 +572,213 @@ fn history_unit(sidx: usize, ctor: usize, tier: Tier, ctx: &mut Ctx) {
     );
 }
 
+
+// ------------------------------------------------------------------ public constructors and builders
+
+/// The documented construction routes other than a `Scoring` struct literal.
+#[derive(Clone, Copy, Debug, PartialEq, Eq, Serialize, Deserialize)]
+enum Route {
+    /// Aligner::new(open, extend, fn): every clip forbidden
+    AlignerNew,
+    /// Aligner::with_capacity(m, n, open, extend, fn): every clip forbidden
+    AlignerWithCapacity,
+    /// Scoring::new(open, extend, fn).xclip_prefix(a).xclip_suffix(b).yclip_prefix(c).yclip_suffix(d)
+    ScoringNewFour,
+    /// Scoring::from_scores(open, extend, m, mm) + the four setters in the opposite order
+    FromScoresFourReversed,
+    /// Scoring::from_scores(..).xclip(a).yclip(c): prefix and suffix penalty set together
+    FromScoresPairs,
+    /// Scoring::new(..).yclip(c).xclip(a) then the two suffix setters override
+    ScoringNewPairsThenSuffix,
+}
+
+const ROUTES: [Route; 6] = [
+    Route::AlignerNew,
+    Route::AlignerWithCapacity,
+    Route::ScoringNewFour,
+    Route::FromScoresFourReversed,
+    Route::FromScoresPairs,
+    Route::ScoringNewPairsThenSuffix,
+];
+
+impl Route {
+    fn name(self) -> &'static str {
+        match self {
+            Route::AlignerNew => "Aligner::new",
+            Route::AlignerWithCapacity => "Aligner::with_capacity",
+            Route::ScoringNewFour => "Scoring::new+four-setters",
+            Route::FromScoresFourReversed => "Scoring::from_scores+four-setters",
+            Route::FromScoresPairs => "Scoring::from_scores+xclip+yclip",
+            Route::ScoringNewPairsThenSuffix => "Scoring::new+yclip+xclip+suffix-setters",
+        }
+    }
+    /// can this route express the clip quadruple?
+    fn expressible(self, c: [i32; 4]) -> bool {
+        match self {
+            Route::AlignerNew | Route::AlignerWithCapacity => c == [MIN_SCORE; 4],
+            Route::FromScoresPairs => c[0] == c[1] && c[2] == c[3],
+            _ => true,
+        }
+    }
+    fn needs_match_params(self) -> bool {
+        matches!(self, Route::FromScoresFourReversed | Route::FromScoresPairs)
+    }
+}
+
+/// (match, mismatch) of the MatchParams substitution kinds
+fn mp_of_kind(kind: u8) -> Option<(i32, i32)> {
+    match kind {
+        0 => Some((1, -1)),
+        1 => Some((2, -3)),
+        2 => Some((0, -1)),
+        _ => None,
+    }
+}
+
+/// custom(x, y) on an aligner built through `route`; Err = panic message
+fn call_via_route(route: Route, s: &Scheme, x: &[u8], y: &[u8]) -> Result<Alignment, String> {
+    let sub = s.subst;
+    let f = move |a: u8, b: u8| sub.score(a, b);
+    let (go, ge) = (s.gap_open, s.gap_extend);
+    let c = s.clips();
+    guard(move || match route {
+        Route::AlignerNew => Aligner::new(go, ge, f).custom(x, y),
+        Route::AlignerWithCapacity => Aligner::with_capacity(x.len() / 2, y.len() + 1, go, ge, f).custom(x, y),
+        Route::ScoringNewFour => {
+            let sc = Scoring::new(go, ge, f).xclip_prefix(c[0]).xclip_suffix(c[1]).yclip_prefix(c[2]).yclip_suffix(c[3]);
+            Aligner::with_scoring(sc).custom(x, y)
+        }
+        Route::FromScoresFourReversed => {
+            let (m, mm) = mp_of_kind(sub.kind).expect("MatchParams kind");
+            let sc = Scoring::from_scores(go, ge, m, mm).yclip_suffix(c[3]).yclip_prefix(c[2]).xclip_suffix(c[1]).xclip_prefix(c[0]);
+            Aligner::with_scoring(sc).custom(x, y)
+        }
+        Route::FromScoresPairs => {
+            let (m, mm) = mp_of_kind(sub.kind).expect("MatchParams kind");
+            let sc = Scoring::from_scores(go, ge, m, mm).xclip(c[0]).yclip(c[2]);
+            Aligner::with_scoring(sc).custom(x, y)
+        }
+        Route::ScoringNewPairsThenSuffix => {
+            let sc = Scoring::new(go, ge, f).yclip(c[2]).xclip(c[0]).xclip_suffix(c[1]).yclip_suffix(c[3]);
+            Aligner::with_scoring(sc).custom(x, y)
+        }
+    })
+}
+
+/// the `Scoring` value a route produces must carry exactly the requested penalties (public fields)
+fn scoring_fields_via_route(route: Route, s: &Scheme) -> Result<Option<(i32, i32, [i32; 4])>, String> {
+    let sub = s.subst;
+    let f = move |a: u8, b: u8| sub.score(a, b);
+    let (go, ge) = (s.gap_open, s.gap_extend);
+    let c = s.clips();
+    guard(move || match route {
+        Route::AlignerNew | Route::AlignerWithCapacity => None,
+        Route::ScoringNewFour => {
+            let sc = Scoring::new(go, ge, f).xclip_prefix(c[0]).xclip_suffix(c[1]).yclip_prefix(c[2]).yclip_suffix(c[3]);
+            Some((sc.gap_open, sc.gap_extend, [sc.xclip_prefix, sc.xclip_suffix, sc.yclip_prefix, sc.yclip_suffix]))
+        }
+        Route::FromScoresFourReversed => {
+            let (m, mm) = mp_of_kind(sub.kind).expect("MatchParams kind");
+            let sc = Scoring::from_scores(go, ge, m, mm).yclip_suffix(c[3]).yclip_prefix(c[2]).xclip_suffix(c[1]).xclip_prefix(c[0]);
+            Some((sc.gap_open, sc.gap_extend, [sc.xclip_prefix, sc.xclip_suffix, sc.yclip_prefix, sc.yclip_suffix]))
+        }
+        Route::FromScoresPairs => {
+            let (m, mm) = mp_of_kind(sub.kind).expect("MatchParams kind");
+            let sc = Scoring::from_scores(go, ge, m, mm).xclip(c[0]).yclip(c[2]);
+            Some((sc.gap_open, sc.gap_extend, [sc.xclip_prefix, sc.xclip_suffix, sc.yclip_prefix, sc.yclip_suffix]))
+        }
+        Route::ScoringNewPairsThenSuffix => {
+            let sc = Scoring::new(go, ge, f).yclip(c[2]).xclip(c[0]).xclip_suffix(c[1]).yclip_suffix(c[3]);
+            Some((sc.gap_open, sc.gap_extend, [sc.xclip_prefix, sc.xclip_suffix, sc.yclip_prefix, sc.yclip_suffix]))
+        }
+    })
+}
+
+fn route_case(route: Route, scheme: &Scheme, x: &[u8], y: &[u8], opt: i64, cc: &mut CaseCtx) {
+    match scoring_fields_via_route(route, scheme) {
+        Err(msg) => {
+            cc.violation(format!("C01/constructor/{}/panic", route.name()), msg);
+            return;
+        }
+        Ok(Some(got)) => {
+            let want = (scheme.gap_open, scheme.gap_extend, scheme.clips());
+            if got != want {
+                cc.violation(
+                    format!("C01/constructor/{}/scoring-fields-differ", route.name()),
+                    format!("requested (open, extend, [xp, xs, yp, ys]) = {:?}, built {:?}", want, got),
+                );
+                return;
+            }
+        }
+        Ok(None) => {}
+    }
+    match call_via_route(route, scheme, x, y) {
+        Err(msg) => cc.violation(format!("C01/constructor/{}/panic", route.name()), msg),
+        Ok(al) => {
+            // same oracle as everywhere else; a constructor that drops or swaps a penalty shows up
+            // as a non-optimal / invalid answer for the requested scheme
+            match check_alignment(&al, x, y, scheme, Mode::Custom, opt, true, false, cc) {
+                Ok(()) => {}
+                Err((symptom, detail)) => cc.violation(format!("C01/constructor/{}/{}", route.name(), symptom), detail),
+            }
+        }
+    }
+}
+
+const N_BUILDER_UNITS: usize = 12;
+
+fn builder_gaps(tier: Tier) -> Vec<(i32, i32)> {
+    tier.pick(vec![(0, -1), (-1, -1), (-3, 0)], GAP_OPEN.iter().flat_map(|&o| GAP_EXTEND.iter().map(move |&e| (o, e))).collect())
+}
+
+/// every construction route x every scheme it can express x every pair over {a,b}^<=3
+fn builders_unit(tier: Tier, shard: usize, ctx: &mut Ctx) {
+    let strs = gen::strings(b"ab", 0, 3);
+    let mut idx = 0usize;
+    for kind in 0..4u8 {
+        for &(go, ge) in &builder_gaps(tier) {
+            for route in ROUTES {
+                if route.needs_match_params() && mp_of_kind(kind).is_none() {
+                    continue;
+                }
+                idx += 1;
+                if idx % N_BUILDER_UNITS != shard {
+                    continue;
+                }
+                let base = Scheme {
+                    subst: Subst { kind, emb: [b'a', b'b', b'c'] },
+                    gap_open: go,
+                    gap_extend: ge,
+                    xclip_prefix: MIN_SCORE,
+                    xclip_suffix: MIN_SCORE,
+                    yclip_prefix: MIN_SCORE,
+                    yclip_suffix: MIN_SCORE,
+                };
+                for x in &strs {
+                    for y in &strs {
+                        let table = RangeTable::new(x, y, &base.subst, go, ge);
+                        for ci in 0..256 {
+                            let clips = clip_quadruple(ci);
+                            if !route.expressible(clips) {
+                                continue;
+                            }
+                            let scheme = base.with_clips(clips);
+                            let opt = table.optimum(clips);
+                            ctx.case(
+                                || json!({"kind": "constructor", "route": route, "scheme": scheme, "x": show(x), "y": show(y)}),
+                                |cc| route_case(route, &scheme, x, y, opt, cc),
+                            );
+                        }
+                    }
+                    if ctx.res.capped {
+                        return;
+                    }
+                }
+            }
+        }
+    }
+}
+
 // ------------------------------------------------------------------ Prop
 
 const N_HISTORY_CTORS: usize = 3;
@@ -584,7 +791,7 @@ impl Prop for C01Prop {
         "exploration"
     }
     fn rule(&self) -> &'static str {
-        "Complete sweep: every pair (x,y) over the unit's alphabet up to the length bound x every scoring scheme of the grid (substitution function x gap_open x gap_extend x 4^4 clip penalties), custom mode on an aligner object that is reused across the whole sweep of its scheme and compared with a fresh aligner on every call; global/semiglobal/local (+ custom again) on every 37th clip scheme; plus K2 call histories (depth 3/4) of (mode, x, y) on one object. Each (scheme, mode, x, y[, history]) is enumerated once. Non-trivial: both sequences non-empty and the returned alignment contains a gap or a clipped end (history cases: all)."
+        "Complete sweep: every pair (x,y) over the unit's alphabet up to the length bound x every scoring scheme of the grid (substitution function x gap_open x gap_extend x 4^4 clip penalties), custom mode on an aligner object that is reused across the whole sweep of its scheme and compared with a fresh aligner on every call; global/semiglobal/local (+ custom again) on every 37th clip scheme; plus K2 call histories (depth 3/4) of (mode, x, y) on one object; plus every public construction route (Aligner::new/with_capacity, Scoring::new/from_scores + clip setters) x every scheme it can express x every pair over {a,b}^<=3, checked on the built Scoring's public fields and with the same optimum/path oracle. Each (scheme, mode, x, y[, history]) is enumerated once. Non-trivial: both sequences non-empty and the returned alignment contains a gap or a clipped end (history cases: all)."
     }
     fn assumptions(&self) -> Vec<&'static str> {
         vec![
@@ -602,7 +809,7 @@ impl Prop for C01Prop {
             "gap_open": GAP_OPEN, "gap_extend": GAP_EXTEND,
             "clip_penalties": "{MIN_SCORE,0,-1,-4}^4 (all 256)",
             "byte_embeddings": ["a,b", "0x00,0xFF", "0x7F,0x80"],
-            "constructors": "with_scoring, with_capacity_and_scoring(0,0), with_capacity_and_scoring(m,n)",
+            "constructors": "with_scoring, with_capacity_and_scoring(0,0), with_capacity_and_scoring(m,n); constructor units: Aligner::new, Aligner::with_capacity, Scoring::new / Scoring::from_scores followed by xclip/yclip/xclip_prefix/xclip_suffix/yclip_prefix/yclip_suffix in four orders, each on every scheme the route can express x every pair over {a,b}^<=3",
             "history_depth": tier.pick(3, 4), "history_alphabet": "4 modes x 52 input pairs (3 long + all of {a,b}^<=2 squared), 8 schemes x 3 constructors; BFS stops early when no new object state appears",
         })
     }
@@ -617,15 +824,20 @@ impl Prop for C01Prop {
                 v.push(format!("history-s{}-c{}", s, c));
             }
         }
+        for i in 0..N_BUILDER_UNITS {
+            v.push(format!("constructors-{}", i));
+        }
         v
     }
     fn run_unit(&self, tier: Tier, unit: usize, ctx: &mut Ctx) {
         let cfgs = sweep_cfgs(tier);
         if unit < cfgs.len() {
             sweep(&cfgs[unit], unit, ctx, None);
-        } else {
+        } else if unit < cfgs.len() + history_schemes().len() * N_HISTORY_CTORS {
             let h = unit - cfgs.len();
             history_unit(h / N_HISTORY_CTORS, h % N_HISTORY_CTORS, tier, ctx);
+        } else {
+            builders_unit(tier, unit - cfgs.len() - history_schemes().len() * N_HISTORY_CTORS, ctx);
         }
     }
     fn replay(&self, case: &Value, ctx: &mut Ctx) {
@@ -660,6 +872,13 @@ impl Prop for C01Prop {
                 let limit = case["pair_limit"].as_u64().unwrap() as usize;
                 let ci = case["clip_idx"].as_u64().unwrap() as usize;
                 sweep(&cfg, cfg_idx, ctx, Some((limit, ci)));
+            }
+            "constructor" => {
+                let scheme: Scheme = serde_json::from_value(case["scheme"].clone()).unwrap();
+                let route: Route = serde_json::from_value(case["route"].clone()).unwrap();
+                let (x, y) = (unshow(case["x"].as_str().unwrap()), unshow(case["y"].as_str().unwrap()));
+                let opt = RangeTable::new(&x, &y, &scheme.subst, scheme.gap_open, scheme.gap_extend).optimum(scheme.clips());
+                ctx.case(|| case.clone(), |cc| route_case(route, &scheme, &x, &y, opt, cc));
             }
             "history" => {
                 let sidx = case["init"]["c01_history_scheme"].as_u64().unwrap() as usize;
